@@ -88,9 +88,13 @@ func runApi(p *pair, c ApiCase, tr tracer) verdict {
 	}
 	scripts := [2][]byte{deliveryScript(c.SA, 0), deliveryScript(c.SB, 1)}
 	ref := refClose(p.gross, p.dust, c.Fee, payer, scripts)
+	if c.Payer >= 0 {
+		// the RBF flow passes WithCustomSequence: OP_RETURN delivery scripts burn
+		ref = ref.withOpReturn(scripts)
+	}
 	tag := fmt.Sprintf("%s/%s", p.typName, c.flow())
 	v := verdict{}
-	v.cell = fmt.Sprintf("api|%s|open%s|pay%s|%s|%s-%s|%s|%s", p.typName, partyName(p.opener), partyName(payer), c.flow(), c.SA, c.SB, ref.shape(), feeClass(c.Fee, p.gross[payer], p.dust[payer]))
+	v.cell = fmt.Sprintf("api|%s|open%s|pay%s|%s|%s-%s|%s%s|%s", p.typName, partyName(p.opener), partyName(payer), c.flow(), c.SA, c.SB, ref.shape(), ref.tie(), feeClass(c.Fee, p.gross[payer], p.dust[payer]))
 	fail := func(sig, f string, a ...any) verdict {
 		v.sig = "api:" + sig + ":" + tag
 		v.what = fmt.Sprintf(f, a...) + fmt.Sprintf(" [%s fee=%d payer=%s scripts=%s/%s gross=%v dust=%v opener=%s]", p.src.Name(), c.Fee, partyName(payer), c.SA, c.SB, p.gross, p.dust, partyName(p.opener))
